@@ -1,0 +1,13 @@
+// Copyright The gittuf Authors
+// SPDX-License-Identifier: Apache-2.0
+
+//go:build verif
+
+package rsl
+
+// VerifResetCache clears the process-wide entry / parent cache (build tag
+// verif only), so that the verification harness can compare cold and warm
+// reads and keep tampering cases independent of each other.
+func VerifResetCache() {
+	newRSLCache()
+}
